@@ -275,10 +275,15 @@ def root_cause(text, ep, o):
             if r is not None:
                 calls.append((r, list(c.parameters) + list(c.kw_parameters.values()), c))
     # 1. actual argument mentions a caller variable that is named like a dummy of the callee
-    for r, actuals, _ in calls:
+    for r, actuals, c in calls:
         dn = set(dummies(r))
         if any(inner_names(a) & dn for a in actuals):
             return 'actual-mentions-dummy-name'
+        # a plain variable passed to a dummy of ANOTHER name that is itself the name of a dummy (permutation of names)
+        for d, a in c.arg_map.items():
+            if isinstance(a, (sym.Scalar, sym.Array, sym.DeferredTypeSymbol)) and a.name.lower() in dn \
+                    and a.name.lower() != str(getattr(d, 'name', d)).lower():
+                return 'actual-mentions-dummy-name'
     # 1b. strided section as actual argument / whole array larger than the explicit-shape dummy
     sub_calls = [x for x in calls if isinstance(x[2], ir.CallStatement)]
     for r, actuals, c in sub_calls:
